@@ -482,6 +482,8 @@ def call(fn, args=(), kw=()):
     if name == "np.full" and len(args) == 2 and args[1].op == "const" and not isinstance(args[1].a[0], bool) and isinstance(args[1].a[0], float) and args[1].a[0] in (0.0, 1.0) and not any(k_ == "dtype" for k_, _ in kw):
         # np.full(n, 0.0) is np.zeros(n); np.full(n, 1.0) is np.ones(n)
         return call(ext("np.zeros" if args[1].a[0] == 0.0 else "np.ones"), (args[0],), kw)
+    if name == "np.asarray" and len(args) == 1 and len(kw) == 1 and kw[0][0] == "dtype" and args[0].op in ("cmp", "bool"):
+        return call(ext("astype"), (args[0], kw[0][1]))  # np.asarray(mask, dtype=T) is mask.astype(T)
     if name == "re.match" and len(args) == 2 and not kw and args[0].op == "glob":
         return method_call(args[0], "match", (args[1],))  # re.match(PATTERN, s) is PATTERN.match(s)
     if name == "builtins.len" and len(args) == 1 and not kw and args[0].op in ("tuple", "list") and not any(z.op == "star" for z in args[0].a):
